@@ -15,6 +15,10 @@ const (
 	famBlockGroups        // one block/sequence/action, any subset of the block-level groups
 	famBothGroups         // plan-level family x block-level family
 	famConc               // one block, 2..3 sequences of one action: concurrency and tolerance
+	famPlanGroupsSmall    // 1x1x1, plan-level groups from the 7-subset family
+	famBlockGroupsSmall   // 1x1x1, block-level groups from the 7-subset family
+	famConc2              // one block, exactly 2 sequences of one action
+	famSeqSmall           // one block, <=2 sequences, <=2 actions
 )
 
 func vhCfg(fam int) shape.Cfg {
@@ -33,6 +37,16 @@ func vhCfg(fam int) shape.Cfg {
 			PlanGroups: shape.GroupsFamily, BlockGroups: shape.GroupsFamily, CheckActions: 1}
 	case famConc:
 		return shape.Cfg{MinBlocks: 1, MaxBlocks: 1, MinSeqs: 2, MaxSeqs: api.Bound("conc_seqs", 3, 4), MinActions: 1, MaxActions: 1}
+	case famPlanGroupsSmall:
+		return shape.Cfg{MinBlocks: 1, MaxBlocks: 1, MinSeqs: 1, MaxSeqs: 1, MinActions: 1, MaxActions: 1,
+			PlanGroups: api.Bound("plan_groups_family", shape.GroupsFamily, shape.GroupsAll), CheckActions: 1}
+	case famBlockGroupsSmall:
+		return shape.Cfg{MinBlocks: 1, MaxBlocks: 1, MinSeqs: 1, MaxSeqs: 1, MinActions: 1, MaxActions: 1,
+			BlockGroups: api.Bound("block_groups_family", shape.GroupsFamily, shape.GroupsAll), CheckActions: 1}
+	case famConc2:
+		return shape.Cfg{MinBlocks: 1, MaxBlocks: 1, MinSeqs: 2, MaxSeqs: 2, MinActions: 1, MaxActions: api.Bound("conc_actions", 1, 2)}
+	case famSeqSmall:
+		return shape.Cfg{MinBlocks: 1, MaxBlocks: 1, MinSeqs: 1, MaxSeqs: 2, MinActions: 1, MaxActions: 2, SimpleTailSeqs: true}
 	}
 	panic("unknown family")
 }
